@@ -67,7 +67,7 @@ class Alias(Binary):
     def validate(cls, left_operand: Dataset, right_operand: Union[str, Dataset]) -> Dataset:
         new_name = right_operand if isinstance(right_operand, str) else right_operand.name
         if new_name != left_operand.name and new_name in left_operand.get_components_names():
-            raise SemanticError("1-3-1", alias=new_name)
+            raise SemanticError("1-1-6-4", op=cls.op, symbol_name=new_name, comp_name=new_name)
         return Dataset(name=new_name, components=left_operand.components, data=None)
 
 
